@@ -248,7 +248,7 @@ def read_rows(db_path):
 
 def run_crawl(start_urls, site, seed=0, concurrent=1, extra=(), workdir=None, ports=(80,),
               jitter=True, on_request=None, on_table_event=None, max_steps=3_000_000, keep_db=None,
-              hosts_ips=None):
+              hosts_ips=None, on_app=None):
     """Run one crawl.  `site`: {host_header: {target: Page | callable}}."""
     import random
     own = workdir is None
@@ -296,6 +296,8 @@ def run_crawl(start_urls, site, seed=0, concurrent=1, extra=(), workdir=None, po
                 trace.install(obj)
             return obj
         factory.new = new
+        if on_app is not None:
+            on_app(app, builder)       # optional hook: instrument the built application before it runs
         os.makedirs(out_dir, exist_ok=True)
         os.chdir(workdir)
         done, task = loop.run_until_quiescent(app.run(), max_steps=max_steps)
